@@ -2,6 +2,7 @@ package h
 
 import (
 	"fmt"
+	"syscall"
 	"os"
 	"path/filepath"
 	"strings"
@@ -50,6 +51,22 @@ func scenarioC06(rc *RunCtx) {
 	}
 	staleBefore := len(FailFilesIn(Snapshot(dir)))
 
+	// environment: the temporary directory of the process may live on another file system than the package directory
+	if t.Chance("c06.tmpdir_other_fs", 12) {
+		if other := otherFSDir(rc.Dir); other != "" {
+			oldTmp, had := os.LookupEnv("TMPDIR")
+			os.Setenv("TMPDIR", other)
+			rc.Inc("fault.tmpdir_on_other_filesystem")
+			defer func() {
+				if had {
+					os.Setenv("TMPDIR", oldTmp)
+				} else {
+					os.Unsetenv("TMPDIR")
+				}
+				os.RemoveAll(other)
+			}()
+		}
+	}
 	_, r1 := runWithClock(rc, prog, RunOpt{Name: name, Dir: dir, Flags: fl, WithCtx: t.Chance("tb.ctx", 15)}, cc, rc.FreshDir())
 	notePhaseCut(rc, r1)
 	rc.Sample = fmt.Sprintf("name=%q %v clock=%v verdict=%s stale=%d\n%s", name, fl, r1.Clock, r1.Verdict, staleBefore, prog)
@@ -234,4 +251,17 @@ func tbLogs(cr *CheckRun) string {
 		b.WriteString(" || ")
 	}
 	return b.String()
+}
+
+// otherFSDir returns a fresh directory on a file system other than the one holding dir ("" if none is available).
+func otherFSDir(dir string) string {
+	var a, b syscall.Stat_t
+	if syscall.Stat(dir, &a) != nil || syscall.Stat("/dev/shm", &b) != nil || a.Dev == b.Dev {
+		return ""
+	}
+	d, err := os.MkdirTemp("/dev/shm", "vcheck-tmp-")
+	if err != nil {
+		return ""
+	}
+	return d
 }
